@@ -59,14 +59,38 @@ Further histories and spaces (all in the quick tier):
     JSON look-alikes, as field name, allowed value (alone/embedded), metadata
     value and expression; plus valid expressions containing such sequences
     with an extra battery frame made of strings they match / do not match;
-  * all routes must write the same fields section for a hand-written start.
+  * all routes must write the same fields section for a hand-written start;
+  * Z0 / D2: date bounds at every UTC offset sign x {00,05,11} h x
+    {00,15,30,45} min (and Z), hand-written and discovered from tz-aware
+    columns (fixed offsets and two named zones); F0's offset goes round the
+    same alphabet;
+  * H1: an ignorable key at EVERY position among a field's kinds (first,
+    each middle position, last), in every gap at once, at the top level
+    before / between / after creation_metadata and fields, and in a field
+    before / after a field with ordinary constraints;
+  * X0 histories across DIFFERENT documents and objects in one process:
+    foreign documents (uninterpreted top-level sections, unknown kinds,
+    comments, every metadata key) are loaded / verified / detected by path
+    or dictionary (1-2 steps); then an unrelated document B is serialised
+    by every route, built from a dictionary, built through the constraint
+    constructors, freshly discovered, and objects created BEFORE the
+    history are serialised again.  Oracle: the same object gives the same
+    text before and after; every observation equals the one from a fresh
+    process state.  These histories run in children of a process forked
+    from the worker before it ever called tdda (class Zygote), so "fresh"
+    means fresh whatever the worker has executed meanwhile;
+  * equivalent argument forms: dict / OrderedDict for initialize_from_dict,
+    str / pathlib.Path for verify_df.
 
 Signatures name the root cause: raises:<load|dump>:<Type>@<innermost tdda
 function>:<message>, text:<clause>:<feature>, fixpoint:<what changed>:<start
-feature>, content:<clause>:<kind>:<value class>, verdict:<routeA>!=<routeB>:...,
+feature>, content:<clause>:<kind>:<value class>[@<offset class>],
+verdict:<routeA>!=<routeB>:..., cross-document:<same-object|fresh-state>:<what
+differs>, argument-form:<api>:<form>,
 caller-dict-modified:<api>:<what>, second-use-differs:<api>,
 rewrite:stale:<load kind>, routes-disagree:text:dict!=<route>:<what changed>
 """
+import collections
 import contextlib
 import datetime
 import io
@@ -74,10 +98,15 @@ import itertools
 import json
 import math
 import os
+import pathlib
+import pickle
 import shutil
+import struct
 import tempfile
+import traceback
 
 from mc.engine import Check, Res
+from mc import fresh_fork as FF
 from mc.models import tdda_format_spec as spec
 
 LS, PS, NEL = chr(0x2028), chr(0x2029), chr(0x85)
@@ -100,6 +129,22 @@ def _dtvals(unit):
             '2000-02-29T12:00:00']
 
 
+# UTC offsets: sign x hours x minutes, so every class sign x {whole hour,
+# :15, :30, :45, less than one hour, zero} occurs; used for discovered bounds
+# (tz-aware columns at a fixed offset), hand-written bounds (plus 'Z') and
+# the microsecond layer
+UTC_OFFSETS = [sg + h + ':' + m for sg in '+-' for h in ('00', '05', '11')
+               for m in ('00', '15', '30', '45')]
+# named zones whose offset has a fractional hour, west and east of Greenwich
+NAMED_ZONES = {'dttzNF': 'America/St_Johns', 'dttzNP': 'Asia/Kathmandu'}
+
+
+def offset_minutes(off):
+    """'+05:30' -> 330, '-00:45' -> -45 (the sign applies to the whole)"""
+    m = int(off[1:3]) * 60 + int(off[4:6])
+    return -m if off[0] == '-' else m
+
+
 FAMILIES = {
     'i64': [-2, 0, 1, 3],
     'u8': [0, 1, 255],
@@ -120,6 +165,10 @@ FAMILIES = {
     'dttzutc': _dtvals('us'), 'dttz0530': _dtvals('us'),
     'dateobj': [None, (1999, 12, 31), (2000, 1, 1)],
 }
+# tz-aware columns at every offset of the alphabet / in a named zone
+OFFSET_FAMILIES = ['dttz' + off for off in UTC_OFFSETS]
+for _f in OFFSET_FAMILIES + sorted(NAMED_ZONES):
+    FAMILIES[_f] = _dtvals('us')
 STRING_FAMILIES = ('strobj', 'strx', 'cat')
 FAMILY_ORDER = ['i64', 'u8', 'i64x', 'Int64', 'f64', 'f64inf', 'f64x', 'bool',
                 'boolobj', 'boolean', 'cat', 'dts', 'dtms', 'dtus', 'dtns',
@@ -152,12 +201,17 @@ def build_column(fam, idxs):
         unit = fam[2:]
         return pd.Series(np.array([v if v else 'NaT' for v in vals],
                                   dtype='datetime64[%s]' % unit))
-    if fam in ('dttzutc', 'dttz0530'):
+    if fam.startswith('dttz'):
         s = pd.Series(np.array([v if v else 'NaT' for v in vals],
                                dtype='datetime64[us]')).dt.tz_localize('UTC')
         if fam == 'dttz0530':
             s = s.dt.tz_convert(datetime.timezone(
                 datetime.timedelta(hours=5, minutes=30)))
+        elif fam in NAMED_ZONES:
+            s = s.dt.tz_convert(NAMED_ZONES[fam])
+        elif fam != 'dttzutc':
+            s = s.dt.tz_convert(datetime.timezone(datetime.timedelta(
+                minutes=offset_minutes(fam[4:]))))
         return s
     if fam == 'dateobj':
         return pd.Series([datetime.date(*v) if v else None for v in vals],
@@ -235,11 +289,13 @@ DATE_VALUES = ['2000-01-01', '2000-01-01 00:00:00', '2000-01-01T12:34:56',
 DATE_VALUES += ['2000-01-01 00:00:00.000249', '2000-01-01 00:00:00.001001',
                 '2000-01-01 00:00:00+05:30',
                 '1999-12-31 23:59:59.999999-08:00',
-                '2000-01-01T00:00:00.000249+00:00']
+                '2000-01-01T00:00:00.000249+00:00',
+                '2000-01-01T00:00:00Z']
 DATE_VALUES_LITE = ['2000-01-01', '1999-12-31 23:59:59.999999']
 DATE_GRAY = ['2000-01-01 00:00:00.5', '2000-01-01 00:00:00.123456789',
              '2000/01/01', '2000-1-1', '2000-02-30', 'not a date',
-             '2000-01-01T00:00:00Z', '2000-01-01 00:00:00+0530']
+             '2000-01-01 00:00:00+0530', '2000-01-01 00:00:00+05:60',
+             '2000-01-01 00:00:00-24:00', '2000-01-01 00:00:00 Z']
 # 1..5 and 7 fractional digits (how '.5' is read is the known gray zone),
 # without and with a UTC offset
 DATE_GRAY += ['2000-01-01 00:00:00.' + f + o
@@ -363,6 +419,7 @@ IGNORABLE_KIND_LEVEL = [
     ('#c', 'text'), ('#', 1), ('#min', 3), ('#c', {'value': 1}),
     ('#c', None), ('#é', ['x']),
 ]
+IGNORABLE_MIDDLE = [('zzz', 3), ('#c', 'text'), ('#min', 3), ('Min', 0)]
 IGNORABLE_TOP_LEVEL = [
     ('#c', 'text'), ('#fields', {'a': {'type': 'bool'}}), ('zzz', 1),
     ('field_groups', {}), ('field_groups', {'a,b': {'lt': True}}),
@@ -370,25 +427,73 @@ IGNORABLE_TOP_LEVEL = [
 
 
 def with_key(d, k, v, where):
-    """d plus key k at the front ('first') or back ('last')"""
-    out = {}
+    """d plus key k at the front ('first'), at the back ('last') or before
+    the key that is now at index `where` (an int in 0..len(d))"""
     if where == 'first':
-        out[k] = v
-    out.update(d)
-    if where == 'last':
+        where = 0
+    elif where == 'last':
+        where = len(d)
+    out = {}
+    for i, (k0, v0) in enumerate(d.items()):
+        if i == where:
+            out[k] = v
+        out[k0] = v0
+    if where >= len(d):
         out[k] = v
     return out
 
 
+def interleaved(d, extras):
+    """d with one ignorable key in EVERY gap: before the first key, between
+    any two keys and after the last (extras are used cyclically; a key that
+    comes round again gets a distinguishing suffix)"""
+    out = {}
+    items = list(d.items())
+    for i in range(len(items) + 1):
+        k, v = extras[i % len(extras)]
+        out[k if k not in out else '%s%d' % (k, i)] = v
+        if i < len(items):
+            out[items[i][0]] = items[i][1]
+    return out
+
+
 def ignorable_docs(tier):
-    """H1: a lite document plus ONE ignorable key."""
-    for fc in lite_fcs():
+    """H1: a lite document plus ONE ignorable key, at EVERY position among
+    the keys of its level (first, each middle position, last); plus one
+    document with an ignorable key in every gap at once."""
+    other = {'type': 'int', 'min': 1, 'max_nulls': 0}
+    for nfc, fc in enumerate(lite_fcs()):
         for (k, v) in IGNORABLE_KIND_LEVEL:
             for where in ('first', 'last'):
                 yield {'fields': {'a': with_key(fc, k, v, where)}}
+        # every position between two keys: one unknown kind, one comment,
+        # and the look-alikes of a known kind
+        for (k, v) in IGNORABLE_MIDDLE:
+            for where in range(1, len(fc)):
+                yield {'fields': {'a': with_key(fc, k, v, where)}}
+        meta = {'creator': 'me', 'n_records': 3}
         for (k, v) in IGNORABLE_TOP_LEVEL:
             for where in ('first', 'last'):
                 yield with_key({'fields': {'a': dict(fc)}}, k, v, where)
+            if nfc % 5 == 0:
+                # between creation_metadata and fields, in both orders
+                yield with_key({'creation_metadata': dict(meta),
+                                'fields': {'a': dict(fc)}}, k, v, 1)
+                yield with_key({'fields': {'a': dict(fc)},
+                                'creation_metadata': dict(meta)}, k, v, 1)
+        yield {'fields': {'a': interleaved(fc, IGNORABLE_KIND_LEVEL)}}
+        yield {'fields': {'a': interleaved(fc, IGNORABLE_KIND_LEVEL[8:])}}
+        yield interleaved({'creation_metadata': dict(meta),
+                           'fields': {'a': dict(fc)}}, IGNORABLE_TOP_LEVEL)
+        # an ignorable key in one field, ordinary constraints in the field
+        # before / after it
+        for (k, v) in (('zzz', 3), ('#c', 'text')):
+            yield {'fields': {'a': with_key(fc, k, v, 'first'),
+                              'b': dict(other)}}
+            yield {'fields': {'b': dict(other),
+                              'a': with_key(fc, k, v, 'first')}}
+            yield {'fields': {'b': with_key(other, k, v, 1),
+                              'a': dict(fc)}}
         # a second field that carries nothing but ignorable keys
         yield {'fields': {'a': dict(fc), 'b': {'zzz': 1, '#c': 'x'}}}
         yield {'fields': {'b': {'zzz': 1}, 'a': dict(fc)}}
@@ -548,6 +653,27 @@ def gray_docs(tier):
     yield {'fields': {'a': []}}
 
 
+OFFSET_BASES = ['2000-01-01 00:00:00', '1999-12-31T23:59:59.999999']
+
+
+def offset_docs(tier):
+    """Z0: date bounds with every UTC offset of the alphabet (and Z), with
+    and without fractional seconds, as scalar and with a precision; then
+    min and max of one field at two different offsets."""
+    offs = UTC_OFFSETS + ['Z']
+    for kind in ('min', 'max'):
+        for off in offs:
+            for b in OFFSET_BASES:
+                yield {'fields': {'a': {'type': 'date', kind: b + off}}}
+                yield {'fields': {'a': {'type': 'date', kind: {
+                    'value': b + off, 'precision': 'closed'}}}}
+    for i, off in enumerate(offs):
+        off2 = offs[(i + 7) % len(offs)]
+        yield {'fields': {'a': {'type': 'date',
+                                'min': OFFSET_BASES[1] + off,
+                                'max': OFFSET_BASES[0] + off2}}}
+
+
 def triple_docs(tier):
     """T: three kinds on one field (thorough)."""
     kinds = list(spec.KNOWN_KINDS)
@@ -640,6 +766,93 @@ def rewrite_histories(tier):
                 yield [s1, s2, s3]
 
 
+# ---- histories across DIFFERENT documents and objects in one process (X0)
+# foreign documents A: everything a document may carry besides the
+# constraints of its fields - uninterpreted top-level sections before / after
+# 'fields', unknown kinds and comments, every metadata key - and plain ones
+FOREIGN_FIELDS = {'a': {'type': 'string', 'rex': ['^x$']},
+                  'z': {'type': 'real', 'max': 9.5}}
+FOREIGN_META = {'as_at': '2001-02-03', 'local_time': '2001-02-03T04:05:06',
+                'utc_time': '2001-02-03T04:05:06+00:00',
+                'creator': 'someone else', 'rdbms': 'sqlite',
+                'source': 'foreign.csv', 'host': 'elsewhere', 'user': 'them',
+                'dataset': 'foreign', 'n_records': 77, 'n_selected': 7,
+                'tddafile': 'foreign.tdda'}
+
+
+def foreign_docs():
+    out = [{'fields': dict(FOREIGN_FIELDS)}]
+    for (k, v) in IGNORABLE_TOP_LEVEL:
+        for where in ('first', 'last'):
+            out.append(with_key({'fields': dict(FOREIGN_FIELDS)}, k, v,
+                                where))
+    out.append({'fields': {'a': {'#c': 'text', 'type': 'string', 'zzz': 3,
+                                 'rex': ['^x$'], 'transform': 'y'}}})
+    out.append({'creation_metadata': dict(FOREIGN_META),
+                'fields': dict(FOREIGN_FIELDS)})
+    out.append({'fields': dict(FOREIGN_FIELDS),
+                'creation_metadata': dict(FOREIGN_META, zzz=1),
+                'field_groups': {'a,z': {'lt': True}}, '#c': 'note'})
+    out.append({'fields': None, 'field_groups': {'a,b': {'eq': True}},
+                '#c': 'x', 'zzz': [1]})
+    out.append({'fields': {'a': {'type': 'date',
+                                 'min': '1999-12-31 23:59:59.999999-05:30',
+                                 'max': '2000-01-01 00:00:00+00:45'}}})
+    # the field names of the B documents, other constraints
+    out.append({'#a': 1, 'fields': {'a': {'type': 'int', 'min': 2, 'max': 2,
+                                          'sign': 'positive'},
+                                    'b': {'type': 'string',
+                                          'allowed_values': ['q']}},
+                'field_groups': {'a,b': {'gt': True}}})
+    return out
+
+
+FOREIGN_DOCS = foreign_docs()
+FOREIGN_ROUTES = ['load', 'load+write', 'dict', 'verify-path', 'verify-dict',
+                  'detect-path', 'detect-dict']
+# the documents whose text / verdicts are observed; the second has sections,
+# metadata and comments of its own
+OWN_DOCS = [
+    {'fields': {'a': {'type': 'int', 'min': 1, 'max': 3}}},
+    {'creation_metadata': {'creator': 'me', 'source': 'own.csv'},
+     'field_groups': {'a,b': {'eq': True}}, '#own': 'kept or not',
+     'fields': {'a': {'type': 'int', 'min': 1, 'max': 3, '#c': 'mine'},
+                'b': {'type': 'string', 'allowed_values': ['x']}}},
+]
+# two-step histories: a plain document, sections after / before 'fields',
+# metadata
+FOREIGN_2 = [0, 2, 7, 12]
+FOREIGN_ROUTES_2 = ['load', 'dict', 'verify-path']
+API_CLASSES = {'type': 'TypeConstraint', 'min': 'MinConstraint',
+               'max': 'MaxConstraint', 'sign': 'SignConstraint',
+               'allowed_values': 'AllowedValuesConstraint'}
+
+def mask_times(text):
+    """a written text without the two creation times (the only parts of a
+    discovered set that depend on the clock)"""
+    import re
+    return re.sub(r'"(local_time|utc_time)": "[^"\n]*"', r'"\1": "<time>"',
+                  text)
+
+
+def cross_histories(tier):
+    for bi in range(len(OWN_DOCS)):
+        for ai in range(len(FOREIGN_DOCS)):
+            for r in FOREIGN_ROUTES:
+                yield bi, [[ai, r]]
+    steps = [[ai, r] for ai in FOREIGN_2 for r in FOREIGN_ROUTES_2]
+    for bi in range(len(OWN_DOCS)):
+        for s1 in steps:
+            for s2 in steps:
+                if s1[0] != s2[0]:
+                    yield bi, [s1, s2]
+    if tier == 'thorough':
+        for ai in range(len(FOREIGN_DOCS)):
+            for aj in range(len(FOREIGN_DOCS)):
+                for r in ('load+write', 'detect-dict'):
+                    yield 1, [[ai, r], [aj, r]]
+
+
 FRACTION_BATCH = 1000
 FRACTION_BASE = '2000-01-01 00:00:00'
 
@@ -679,6 +892,56 @@ def exc_sig(e, src):
     return '%s@%s:%s' % (type(e).__name__, fn, _slug(e))
 
 
+def offset_class(minutes):
+    """class of a UTC offset, for signatures"""
+    if minutes == 0:
+        return 'utc'
+    return '%s-%s' % ('east' if minutes > 0 else 'west',
+                      'whole-hours' if minutes % 60 == 0 else 'fractional')
+
+
+def tz_class(s):
+    """'' for a naive date string (or anything else), '@<offset class>' for
+    one with a UTC offset"""
+    p = spec.parse_instant(s)
+    if isinstance(p, datetime.datetime) and p.tzinfo is not None:
+        return '@' + offset_class(int(p.utcoffset().total_seconds() // 60))
+    return ''
+
+
+def ignorable_class(doc):
+    """which ignorable keys a document has: comment-key / unknown-kind among
+    a field's kinds, top-level-key; several joined by '+'"""
+    out = set()
+    for k in doc:
+        if k not in ('fields', 'field_groups', 'creation_metadata'):
+            out.add('top-level-key')
+    f = doc.get('fields')
+    if isinstance(f, dict):
+        for fc in f.values():
+            if isinstance(fc, dict):
+                for k in fc:
+                    if spec.is_comment_key(k):
+                        out.add('comment-key')
+                    elif k not in spec.KNOWN_KINDS:
+                        out.add('unknown-kind')
+    return '+'.join(sorted(out)) or 'none'
+
+
+def family_tag(fam):
+    """column family as named in signatures: the tz-aware families by the
+    class of their offset"""
+    if not fam.startswith('dttz'):
+        return fam
+    if fam in NAMED_ZONES:
+        return 'dttz@named-' + {'dttzNF': 'west', 'dttzNP': 'east'}[fam] \
+            + '-fractional'
+    mins = {'dttzutc': 0, 'dttz0530': 330}.get(fam)
+    if mins is None:
+        mins = offset_minutes(fam[4:])
+    return 'dttz@' + offset_class(mins)
+
+
 def value_class(v):
     """coarse class of a constraint entry, for signatures"""
     value, precision, dictform = spec.constraint_value(v)
@@ -693,7 +956,8 @@ def value_class(v):
             else 'float'
     elif isinstance(value, str):
         p = spec.parse_instant(value)
-        c = 'datestr' if isinstance(p, datetime.datetime) else 'str'
+        c = 'datestr' + tz_class(value) \
+            if isinstance(p, datetime.datetime) else 'str'
     elif isinstance(value, list):
         c = 'list'
     else:
@@ -773,6 +1037,97 @@ def plain(x):
         return repr(x)
 
 
+class Zygote(object):
+    """A process forked from the worker while it has only IMPORTED tdda and
+    never called it.  It stays in that state and, per request, runs fn(req)
+    in a child forked from itself (mc.fresh_fork): so a history can be
+    executed from the process state 'imported, never called' at any time,
+    whatever the worker itself has executed meanwhile.  The zygote ends when
+    the worker closes the pipe or dies."""
+
+    def __init__(self, fn):
+        rq_r, rq_w = os.pipe()
+        rs_r, rs_w = os.pipe()
+        pid = os.fork()
+        if pid == 0:
+            try:
+                os.close(rq_w)
+                os.close(rs_r)
+                self._serve(fn, rq_r, rs_w)
+            except BaseException:
+                pass
+            finally:
+                os._exit(0)
+        os.close(rq_r)
+        os.close(rs_w)
+        self.pid = pid
+        self.w = os.fdopen(rq_w, 'wb')
+        self.r = os.fdopen(rs_r, 'rb')
+        self.broken = False
+
+    @staticmethod
+    def _send(f, obj):
+        data = pickle.dumps(obj)
+        f.write(struct.pack('>I', len(data)) + data)
+        f.flush()
+
+    @staticmethod
+    def _recv(f):
+        head = f.read(4)
+        if len(head) < 4:
+            return None
+        return pickle.loads(f.read(struct.unpack('>I', head)[0]))
+
+    @classmethod
+    def _serve(cls, fn, r, w):
+        rf, wf = os.fdopen(r, 'rb'), os.fdopen(w, 'wb')
+        FF.freeze()
+        while True:
+            req = cls._recv(rf)
+            if req is None:
+                return
+            try:
+                payload = ('ok', FF.run_fresh(fn, req[0]))
+            except FF.TddaEscaped as e:
+                payload = ('escaped', e.tname, e.rep, e.tb)
+            except BaseException as e:
+                payload = ('harness', ''.join(traceback.format_exception(
+                    type(e), e, e.__traceback__))[-3000:])
+            cls._send(wf, payload)
+
+    def call(self, req):
+        if self.broken:
+            raise RuntimeError('harness: the pristine process is gone')
+        try:
+            self._send(self.w, (req,))
+            payload = self._recv(self.r)
+        except BaseException:
+            # (a case timeout included) the dialogue is out of step
+            self.close()
+            raise
+        if payload is None:
+            self.close()
+            raise RuntimeError('harness: the pristine process ended')
+        if payload[0] == 'harness':
+            raise RuntimeError('harness error in forked child:\n%s'
+                               % payload[1])
+        return payload
+
+    def close(self):
+        if self.broken:
+            return
+        self.broken = True
+        for f in (self.w, self.r):
+            try:
+                f.close()
+            except Exception:
+                pass
+        try:
+            os.waitpid(self.pid, 0)
+        except Exception:
+            pass
+
+
 # ====================================================================== check
 
 class C09(Check):
@@ -796,7 +1151,12 @@ class C09(Check):
             'name); every 2-character string over JSON-structural characters '
             'and JSON look-alikes in every string carrier; rewrite histories '
             'of one path (1-3 steps x 5 documents x 3 load kinds); date bounds '
-            'at all 10^6 microsecond values, naive and with UTC offset.  '
+            'at all 10^6 microsecond values, naive and with UTC offset; date '
+            'bounds at 24 UTC offsets (sign x hours x minutes) and Z, '
+            'hand-written and discovered; ignorable keys at every position '
+            'among a field\'s kinds; histories across documents (17 foreign '
+            'documents x 7 routes, 1-2 steps, then 2 own documents observed '
+            'by 16 observations each against a fresh process state).  '
             'Per start: BFS over {path, dict, tddafile} until closed '
             '(depth <= 3 quick / 4 thorough) and a 16-frame verify_df battery '
             'by every route; one dictionary object / one path used '
@@ -813,7 +1173,7 @@ class C09(Check):
         'open(path) in a UTF-8 locale',
         'gray (never alarmed): Infinity/NaN literals vs strict JSON; date '
         'strings whose fraction is not exactly six digits or that are not '
-        'YYYY-MM-DD[( |T)HH:MM:SS[.ffffff][+HH:MM|-HH:MM]]; how a UTC offset '
+        'YYYY-MM-DD[( |T)HH:MM:SS[.ffffff][+HH:MM|-HH:MM|Z]]; how a UTC offset '
         'is re-spelt; "#" keys among the field names '
         'with a non-dictionary value or inside a {"value":...} dictionary; '
         '"comment" inside a value dictionary; invalid type/sign/precision '
@@ -848,7 +1208,18 @@ class C09(Check):
                            'path and the dictionary route'),
             ('F0-fraction', 'date bounds at every one of the 10^6 '
                             'microsecond values of one second, without and '
-                            'with a UTC offset (1000 fields per document)'),
+                            'with a UTC offset (1000 fields per document; '
+                            'the offset goes round the offset alphabet)'),
+            ('Z0-offsets', 'hand-written date bounds at every UTC offset '
+                           'sign x {00,05,11} h x {00,15,30,45} min, and Z'),
+            ('D2-offsets', 'discovered: tz-aware columns at every UTC offset '
+                           'of the alphabet and in two named zones'),
+            ('X0-cross', 'histories across documents: foreign documents '
+                         '(extra top-level sections, unknown kinds, metadata) '
+                         'used by 7 routes, then an unrelated document / '
+                         'dictionary-built / constructor-built / discovered '
+                         'set and objects created EARLIER are serialised and '
+                         'verified; against a fresh process state'),
         ]
         if tier == 'thorough':
             L += [
@@ -888,8 +1259,21 @@ class C09(Check):
             for h in rewrite_histories(tier):
                 yield {'k': 'rewrite', 'hist': h}
         elif layer == 'F0-fraction':
-            for start in range(0, 1000000, FRACTION_BATCH):
-                yield {'k': 'frac', 'start': start, 'n': FRACTION_BATCH}
+            # the offset of the max bounds goes round the offset alphabet
+            for i, start in enumerate(range(0, 1000000, FRACTION_BATCH)):
+                yield {'k': 'frac', 'start': start, 'n': FRACTION_BATCH,
+                       'off': UTC_OFFSETS[i % len(UTC_OFFSETS)]}
+        elif layer == 'Z0-offsets':
+            for d in offset_docs(tier):
+                yield {'k': 'hand', 'doc': J(d), 'form': 'indent4'}
+        elif layer == 'D2-offsets':
+            rows = [[1], [2], [3], [1, 2], [1, 3], [2, 3], [0, 1, 3]]
+            for fam in OFFSET_FAMILIES + sorted(NAMED_ZONES):
+                for idxs in rows:
+                    yield {'k': 'disc', 'cols': [['a', fam, idxs]], 'rex': 0}
+        elif layer == 'X0-cross':
+            for bi, hist in cross_histories(tier):
+                yield {'k': 'cross', 'b': bi, 'hist': hist}
         elif layer == 'T1-named':
             for d in singles_named(tier):
                 yield {'k': 'hand', 'doc': J(d), 'form': 'indent4'}
@@ -961,6 +1345,7 @@ class C09(Check):
     def setup_worker(self, tier):
         import warnings
         warnings.filterwarnings('ignore')
+        FF.single_threaded_env()
         import pandas as pd
         import tdda.constraints.base as base
         import tdda.constraints.pd.constraints as pdc
@@ -977,8 +1362,16 @@ class C09(Check):
         self.bframes = {}
         self.ncase = 0
         self.cdir = '.'
+        self.cross_refs = {}
+        # up to here tdda has only been imported: the image the histories
+        # across documents (X0) start from
+        self.zygote = Zygote(self.child_cross)
 
     def teardown_worker(self):
+        zy = getattr(self, 'zygote', None)
+        if zy is not None:
+            zy.close()
+            self.zygote = None
         try:
             os.chdir(self.oldcwd)
         except Exception:
@@ -1105,6 +1498,8 @@ class C09(Check):
                     self.run_rewrite(R, case)
                 elif case['k'] == 'frac':
                     self.run_fraction(R, case)
+                elif case['k'] == 'cross':
+                    self.run_cross(R, case)
                 else:
                     self.run_disc(R, case)
             finally:
@@ -1297,7 +1692,7 @@ class C09(Check):
                         json.dumps(a[f][k]) != json.dumps(b[f][k]):
                     out.append('%s:%s->%s' % (
                         bk(k), value_class(a[f][k]).split('+')[0],
-                        value_class(b[f][k]).split('+')[0]))
+                        value_class(b[f][k]).split('+')[0].split('@')[0]))
         return ';'.join(sorted(set(out))[:3]) or 'other', first
 
     # ---- hand-written start -------------------------------------------
@@ -1389,8 +1784,11 @@ class C09(Check):
             E = self.verdicts('dict', spec.strip_ignorable(doc), names,
                               samples)
             R.ev(n)
+            # the root cause is the ignorable key, whichever constraint of
+            # the document is the victim
             self.compare_routes(R, 'dict', A, 'ignorable-removed', E, doc,
-                                T0, T1, known_only=True)
+                                T0, T1, known_only=True,
+                                roottag=ignorable_class(doc))
         if spec.has_nulls(doc):
             nn = spec.strip_nulls(doc)
             N = self.verdicts('dict', nn, names, samples)
@@ -1440,6 +1838,22 @@ class C09(Check):
                    'second-use-of-a-dictionary-gives-the-same',
                    {'first': list(r1)[:2], 'second': list(r2)[:2],
                     'input': T0[:500]})
+        # the same content as another mapping type (what json gives with
+        # object_pairs_hook=OrderedDict): an equivalent form of the argument
+        if ok:
+            try:
+                dc = DC()
+                dc.initialize_from_dict(json.loads(
+                    json.dumps(doc), object_pairs_hook=collections.OrderedDict))
+                r3 = ('ok', dc.to_json())
+            except Exception as e:
+                r3 = ('raises', type(e).__name__)
+            R.ev()
+            if r3 != r1:
+                R.viol('argument-form:initialize_from_dict:OrderedDict',
+                       'equivalent-forms-of-the-argument-give-the-same',
+                       {'dict': list(r1)[:2], 'OrderedDict': list(r3)[:2],
+                        'input': T0[:500]})
         if not ok:
             return False
         # verify_df, detect_df, verify_df with the same dictionary object
@@ -1485,6 +1899,15 @@ class C09(Check):
         if bytes0 != bytes1:
             R.viol('file-modified-by-load', 'loading-does-not-write',
                    {'input': T0[:500]})
+        # the path as str and as pathlib.Path: equivalent forms
+        ps = ver(lambda df, _: self.pdc.verify_df(df, self.P('p.tdda')))
+        pp = ver(lambda df, _: self.pdc.verify_df(
+            df, pathlib.Path(self.P('p.tdda'))))
+        R.ev(2)
+        if ps != pp:
+            R.viol('argument-form:verify_df:pathlib.Path',
+                   'equivalent-forms-of-the-argument-give-the-same',
+                   {'str': ps, 'Path': pp, 'input': T0[:500]})
         return ok
 
     # ---- rewrite histories (E3, differential) --------------------------
@@ -1547,20 +1970,222 @@ class C09(Check):
                             'path': got}, {'step': i})
                     return
 
+    # ---- histories across different documents and objects (E3) ----------
+    def child_cross(self, req):
+        """Runs in a process that has imported tdda and never called it.
+        Creates constraint-set objects for document B (loaded by path, from
+        a dictionary, built through the constructors, discovered), then uses
+        the foreign documents of the history by their routes, then observes:
+        the EARLIER objects again, and B afresh by every route.  Returns
+        {observation: text | verdict map | 'EXC:Type'}."""
+        buf = io.StringIO()
+        with contextlib.redirect_stdout(buf), contextlib.redirect_stderr(buf):
+            return self._child_cross(req)
+
+    def _child_cross(self, req):
+        pd = self.pd
+        base = self.base
+        DC = base.DatasetConstraints
+        os.chdir(req['cdir'])
+        B = req['B']
+        TB = render(B, 'indent4')
+        with open('b.tdda', 'wb') as f:
+            f.write(TB.encode('utf-8'))
+        frame = pd.DataFrame({'a': pd.Series([1, 2, 5], dtype='int64'),
+                              'b': pd.Series(['x', 'x', 'q'], dtype=object)})
+
+        def guarded(fn):
+            try:
+                return fn()
+            except Exception as e:
+                return 'EXC:' + type(e).__name__
+
+        def text(dc, **kw):
+            return guarded(lambda: mask_times(dc.to_json(**kw)))
+
+        def from_dict():
+            dc = DC()
+            dc.initialize_from_dict(json.loads(TB))
+            return dc
+
+        def built():
+            fcs = []
+            for name, fc in B['fields'].items():
+                cs = [getattr(base, API_CLASSES[k])(v) for k, v in fc.items()
+                      if k in API_CLASSES]
+                fcs.append(base.FieldConstraints(name, cs))
+            return DC(fcs)
+
+        def verdicts(fn, arg):
+            def run():
+                v = fn(frame.copy(), arg)
+                return json.dumps(
+                    [[f, [[k, plain(x)] for k, x in fr.items()]]
+                     for f, fr in v.fields.items()] +
+                    [int(v.passes), int(v.failures)])
+            return guarded(run)
+
+        makers = [('loaded', lambda: DC(loadpath='b.tdda')),
+                  ('from-dict', from_dict), ('built', built),
+                  ('discovered',
+                   lambda: self.pdc.discover_df(frame.copy(), inc_rex=True))]
+        obs = {}
+        early = {}
+        for name, mk in makers:
+            try:
+                early[name] = mk()
+            except Exception as e:
+                early[name] = None
+                obs['early-pre:' + name] = 'EXC:' + type(e).__name__
+                continue
+            obs['early-pre:' + name] = text(early[name])
+        # ---- the history: foreign documents used by their routes
+        outcomes = []
+        for i, (A, route) in enumerate(req['hist']):
+            fname = 'a%d.tdda' % i
+            with open(fname, 'wb') as f:
+                f.write(render(A, 'indent4').encode('utf-8'))
+            adict = json.loads(json.dumps(A))
+
+            def step():
+                if route == 'load':
+                    DC(loadpath=fname)
+                elif route == 'load+write':
+                    t = DC(loadpath=fname).to_json(tddafile=fname)
+                    with open(fname, 'wb') as f:
+                        f.write(t.encode('utf-8'))
+                elif route == 'dict':
+                    DC().initialize_from_dict(adict)
+                elif route == 'verify-path':
+                    self.pdc.verify_df(frame.copy(), fname)
+                elif route == 'verify-dict':
+                    self.pdc.verify_df(frame.copy(), adict)
+                elif route == 'detect-path':
+                    self.pdc.detect_df(frame.copy(), fname)
+                elif route == 'detect-dict':
+                    self.pdc.detect_df(frame.copy(), adict)
+                else:
+                    raise ValueError(route)
+                return 'ok'
+            outcomes.append(guarded(step))
+        obs['#history'] = outcomes
+        # ---- afterwards
+        for name, mk in makers:
+            if early[name] is not None:
+                obs['early:' + name] = text(early[name])
+            obs['new:' + name] = guarded(lambda: text(mk()))
+        obs['new:loaded-tddafile'] = guarded(
+            lambda: text(DC(loadpath='b.tdda'), tddafile='b.tdda'))
+        obs['new:to_dict'] = guarded(lambda: mask_times(json.dumps(
+            DC(loadpath='b.tdda').to_dict(), default=str)))
+        obs['verdicts:verify-path'] = verdicts(self.pdc.verify_df, 'b.tdda')
+        obs['verdicts:verify-dict'] = verdicts(self.pdc.verify_df,
+                                               json.loads(TB))
+        obs['verdicts:detect-path'] = verdicts(self.pdc.detect_df, 'b.tdda')
+        with open('b.tdda', 'rb') as f:
+            obs['file:b.tdda'] = f.read().decode('utf-8')
+        return obs
+
+    @staticmethod
+    def cross_diff_class(a, b):
+        """what differs between two observations (texts or verdict lists)"""
+        if not (isinstance(a, str) and isinstance(b, str)):
+            return 'other'
+        if a.startswith('EXC:') or b.startswith('EXC:'):
+            return 'raises'
+        try:
+            da, db = json.loads(a), json.loads(b)
+        except ValueError:
+            return 'text'
+        if not (isinstance(da, dict) and isinstance(db, dict)):
+            return 'verdicts'
+        if set(da) != set(db):
+            # (which keys: see the detail; one root cause, one signature)
+            return 'top-level-sections'
+        if da.get('creation_metadata') != db.get('creation_metadata'):
+            return 'metadata'
+        if da.get('fields') != db.get('fields'):
+            return 'fields'
+        if da != db:
+            return 'top-level-sections'
+        return 'spelling-or-order'
+
+    def cross_call(self, R, sub, B, hist):
+        d = os.path.abspath(os.path.join(self.cdir, sub))
+        os.mkdir(d)
+        payload = self.zygote.call({'cdir': d, 'B': B, 'hist': hist})
+        R.ev(len(hist) + 20)
+        if payload[0] == 'escaped':
+            R.viol('uncaught:%s' % payload[1], 'no-internal-error',
+                   {'exception': payload[2], 'traceback': payload[3]})
+            return None
+        return payload[1]
+
+    def run_cross(self, R, case):
+        """History across documents: foreign documents A1..An are used by
+        their routes, then document B and objects made from it BEFORE the
+        history are serialised / verified.  Clauses: (same-object) an object
+        created earlier serialises after the history to the text it
+        serialised to before; (fresh-state) every observation of B after the
+        history equals the observation from a process in which the foreign
+        documents were never used."""
+        bi = case['b']
+        B = OWN_DOCS[bi]
+        hist = [[FOREIGN_DOCS[ai], r] for ai, r in case['hist']]
+        R.key = 'cross:' + json.dumps([bi, case['hist']])
+        R.nontrivial = True
+        R.states += 1 + len(hist)
+        if bi not in self.cross_refs:
+            ref = self.cross_call(R, 'ref', B, [])
+            if ref is None:
+                return
+            self.cross_refs[bi] = ref
+        ref = self.cross_refs[bi]
+        got = self.cross_call(R, 'run', B, hist)
+        if got is None:
+            return
+        for o in got['#history']:
+            R.out('foreign-use:' + o)
+        hdesc = [[r, list(FOREIGN_DOCS[ai])] for ai, r in case['hist']]
+        # -- the same object before and after
+        bad = [k[6:] for k in got if k.startswith('early:')
+               and got[k] != got.get('early-pre:' + k[6:])]
+        if bad:
+            k = bad[0]
+            R.viol('cross-document:same-object:%s' % self.cross_diff_class(
+                got['early-pre:' + k], got['early:' + k]),
+                'an-object-serialises-the-same-after-other-documents-were-used',
+                {'history': hdesc, 'objects': bad,
+                 'before': got['early-pre:' + k][:600],
+                 'after': got['early:' + k][:600]})
+        # -- against the fresh state
+        bad = [k for k in ref if k != '#history' and got.get(k) != ref[k]]
+        R.checked += len(ref) - 1
+        if bad:
+            k = bad[0]
+            R.viol('cross-document:fresh-state:%s' % self.cross_diff_class(
+                ref[k], got.get(k)),
+                'same-result-as-from-a-fresh-process-state',
+                {'history': hdesc, 'observations': bad,
+                 'fresh': str(ref[k])[:600],
+                 'after-history': str(got.get(k))[:600]})
+        R.out('cross:%s' % ('same' if not R.violations else 'DIFFERENT'))
+
     # ---- every microsecond ---------------------------------------------
     def run_fraction(self, R, case):
         """n date-typed fields; field i has min = base.ffffff and max = the
-        same with a UTC offset, ffffff = start+i: all in the spelling Python
-        writes a datetime in.  One load + to_json must keep every instant
+        same with a UTC offset (case['off']), ffffff = start+i: all in the
+        spelling Python writes a datetime in.  One load + to_json must keep every instant
         (model: spec.parse_instant) and the text it wrote must reload to
         itself."""
         DC = self.base.DatasetConstraints
         fields = {}
+        off = case.get('off', '+05:30')
         for us in range(case['start'], case['start'] + case['n']):
             frac = ('.%06d' % us) if us else ''
             fields['f%06d' % us] = {
                 'type': 'date', 'min': FRACTION_BASE + frac,
-                'max': FRACTION_BASE + frac + '+05:30'}
+                'max': FRACTION_BASE + frac + off}
         T0 = render({'fields': fields}, 'indent4')
         R.nontrivial = True
         R.states += 1
@@ -1584,8 +2209,8 @@ class C09(Check):
                 elif not r:
                     bad.append([fc[kind], wv])
         if bad:
-            offs = sorted(set('with-offset' if b[0].endswith('+05:30')
-                              else 'naive' for b in bad))
+            offs = sorted(set('with-offset' + tz_class(b[0])
+                              if tz_class(b[0]) else 'naive' for b in bad))
             R.viol('content:value-kept:bound:date-fraction:%s' %
                    '+'.join(offs), 'written-text-value-kept',
                    {'n_changed': len(bad), 'examples': bad[:6]})
@@ -1717,8 +2342,7 @@ class C09(Check):
                        for k in fc.constraints))))
         if parsed is None:
             return
-        famof = dict((n, 'dttz' if f.startswith('dttz') else f)
-                     for (n, f, _) in case['cols'])
+        famof = dict((n, family_tag(f)) for (n, f, _) in case['cols'])
         fam = '+'.join(sorted(set(famof.values())))
         info = self.explore(R, T0, False, None, 'doc',
                             {'values': vals, 'tag': fam, 'famof': famof})
